@@ -156,3 +156,53 @@ n('C03', 'gauss_seidel: st computed with *0.25', CORE,
 n('C03', 'smoothing: dispatch list reordered', SOLVER,
   "if c_lr_dir in [1, 5, 6, 7]:  # Line relaxation in x-direction",
   "if c_lr_dir in [7, 6, 5, 1]:  # Line relaxation in x-direction")
+
+# ------------------------------------------------------------------- C04
+m('C04', 'restrict: wyr uses wzl twice (full coarsening crx)', CORE,
+  "                        crx[cix, ciy, ciz] += wyr[ciy]*(\n                            wz0[ciz]*(rx[ix, iyp, iz] + rx[ixp, iyp, iz]) +\n                            wzl[ciz]*(rx[ix, iyp, izm] + rx[ixp, iyp, izm]) +\n                            wzr[ciz]*(rx[ix, iyp, izp] + rx[ixp, iyp, izp])",
+  "                        crx[cix, ciy, ciz] += wyr[ciy]*(\n                            wz0[ciz]*(rx[ix, iyp, iz] + rx[ixp, iyp, iz]) +\n                            wzl[ciz]*(rx[ix, iyp, izm] + rx[ixp, iyp, izm]) +\n                            wzl[ciz]*(rx[ix, iyp, izp] + rx[ixp, iyp, izp])",
+  'C04.R')
+m('C04', 'restrict: rx[ixp,...] dropped in one term', CORE,
+  "wzl[ciz]*(rx[ix, iym, izm] + rx[ixp, iym, izm]) +",
+  "wzl[ciz]*(rx[ix, iym, izm] + rx[ix, iym, izm]) +", 'C04.R')
+m('C04', 'restrict_weights: d[i] uses h[2*i]', CORE,
+  "d[i] = (h[2*i-2]+h[2*i-1])/2.", "d[i] = (h[2*i-1]+h[2*i])/2.", 'C04.W')
+m('C04', 'restrict_weights: wl uses cell_centers[2*i]', CORE,
+  "wl[i] *= cell_centers[2*i-1]-ccell_centers[i-1]",
+  "wl[i] *= cell_centers[2*i]-ccell_centers[i-1]", 'C04.W')
+m('C04', 'restriction: sc_dir list [1,5,6] -> [1,4,6]', SOLVER,
+  "    if sc_dir in [1, 5, 6]:  # No coarsening in x-direction.",
+  "    if sc_dir in [1, 4, 6]:  # No coarsening in x-direction.", 'C04.T')
+m('C04', 'prolongation: += -> = for fx', SOLVER,
+  "efield.fx[2*ixc+1, 1:-1, 1:-1] += hh[1:-1, 1:-1]",
+  "efield.fx[2*ixc+1, 1:-1, 1:-1] = hh[1:-1, 1:-1]", 'C04.P')
+m('C04', 'prolongation: boundary slice : instead of 1:-1', SOLVER,
+  "efield.fx[2*ixc, 1:-1, 1:-1] += hh[1:-1, 1:-1]",
+  "efield.fx[2*ixc, :, 1:-1] += hh[:, 1:-1]", 'C04.P')
+m('C04', 'prolongation: guard list of fx', SOLVER,
+  "        if sc_dir not in [1, 5, 6]:\n            efield.fx[2*ixc, 1:-1, 1:-1] += hh[1:-1, 1:-1]",
+  "        if sc_dir not in [1, 5]:\n            efield.fx[2*ixc, 1:-1, 1:-1] += hh[1:-1, 1:-1]",
+  'C04.T')
+m('C04', '_get_restriction_weights: list of x', SOLVER,
+  "    if sc_dir not in [1, 5, 6]:\n        wx = core.restrict_weights(",
+  "    if sc_dir not in [1, 4, 6]:\n        wx = core.restrict_weights(", 'C04.T')
+m('C04', '_restrict_model_parameters: child missing (sc_dir 1)', SOLVER,
+  "        out += param[:, :-1:2, 1::2] + param[:, 1::2, 1::2]\n\n    # Only sum the four cells in x-z-plane",
+  "        out += param[:, :-1:2, 1::2] + param[:, :-1:2, 1::2]\n\n    # Only sum the four cells in x-z-plane",
+  'C04.M')
+m('C04', '_restrict_model_parameters: wrong axis for sc_dir 4', SOLVER,
+  "        out = param[:-1:2, :, :] + param[1::2, :, :]",
+  "        out = param[:, :-1:2, :] + param[:, 1::2, :]", 'C04.M')
+m('C04', 'RegularGridProlongator: weights swapped', SOLVER,
+  "np.where(ei == i, 1 - yi, yi)", "np.where(ei == i, yi, 1 - yi)", 'C04.P')
+m('C04', '_current_sc_dir: x blocked + z blocked returns 4', SOLVER,
+  "        elif zsc_dir:\n            c_sc_dir = 5", "        elif zsc_dir:\n            c_sc_dir = 4",
+  'C04.T')
+m('C04', 'restriction: coarse eta_y aliasing case', SOLVER,
+  "    if model.case in ['HTI', 'triaxial']:\n        cmodel.eta_y",
+  "    if model.case in ['VTI', 'triaxial']:\n        cmodel.eta_y", 'C04.M')
+n('C04', 'restrict: terms reordered', CORE,
+  "wzl[ciz]*(rx[ix, iym, izm] + rx[ixp, iym, izm]) +",
+  "(rx[ixp, iym, izm] + rx[ix, iym, izm])*wzl[ciz] +")
+n('C04', 'restrict_weights: /2. as *0.5', CORE,
+  "d[i] = (h[2*i-2]+h[2*i-1])/2.", "d[i] = 0.5*(h[2*i-1]+h[2*i-2])")
